@@ -22,10 +22,10 @@ class C04(Prop):
     campaigns = {
         "quick": [("faultfree", 4000, 40), ("faults", 12000, 60), ("enumerated", 600, 60), ("the_enumerated", 1500, 60),
                   ("known:disjunction+for_all", 320, 30), ("known:disjunction+flatten", 320, 30),
-                  ("known:disjunction+nested_query", 320, 30), ("known:predicate_with_repeated_variable", 320, 30), ("known:disjunction_over_different_variables", 320, 30), ("known:disjunction_of_multi_variable_conjunction", 320, 30), ("rules", 3000, 40), ("known:rule_tree_with_alternative_or_next", 320, 40), ("known:several_kwargs_form_variables", 320, 30), ("known:falsy_operand", 600, 30)],
+                  ("known:disjunction+nested_query", 320, 30), ("known:predicate_with_repeated_variable", 320, 30), ("known:disjunction_over_different_variables", 320, 30), ("known:disjunction_of_multi_variable_conjunction", 320, 30), ("rules", 3000, 40), ("known:rule_tree_with_alternative_or_next", 320, 40), ("known:kwargs_form_variable_in_multi_variable_query", 320, 30), ("known:falsy_operand", 600, 30)],
         "thorough": [("faultfree", 60000, 600), ("faults", 200000, 1500), ("enumerated", 12000, 1500), ("the_enumerated", 40000, 1200),
                      ("known:disjunction+for_all", 4000, 300), ("known:disjunction+flatten", 4000, 300),
-                     ("known:disjunction+nested_query", 8000, 300), ("known:predicate_with_repeated_variable", 4000, 300), ("known:disjunction_over_different_variables", 20000, 300), ("known:disjunction_of_multi_variable_conjunction", 20000, 300), ("rules", 60000, 600), ("known:rule_tree_with_alternative_or_next", 6000, 400), ("known:several_kwargs_form_variables", 40000, 400), ("known:falsy_operand", 40000, 400)],
+                     ("known:disjunction+nested_query", 8000, 300), ("known:predicate_with_repeated_variable", 4000, 300), ("known:disjunction_over_different_variables", 20000, 300), ("known:disjunction_of_multi_variable_conjunction", 20000, 300), ("rules", 60000, 600), ("known:rule_tree_with_alternative_or_next", 6000, 400), ("known:kwargs_form_variable_in_multi_variable_query", 40000, 400), ("known:falsy_operand", 40000, 400)],
     }
     chunk = 40
     rule = ("seeded pools of 1-3 `an` queries (+ `the` variants) over shared variables with explicit domains; "
